@@ -28,6 +28,8 @@
 #include <fcppt/runtime_index.hpp>
 #include <fcppt/args_vector.hpp>
 
+#include <sys/stat.h>
+#include <sys/types.h>
 #include <cstdio>
 #include <cstring>
 #include <deque>
@@ -132,6 +134,13 @@ void make_scratch()
   std::error_code ec;
   std::filesystem::create_symlink(scratch / "nowhere", scratch / "dangling", ec);
   std::filesystem::create_symlink(scratch / "file5", scratch / "symfile", ec);
+  // paths on which stat() itself fails with something other than "not found"
+  std::filesystem::create_symlink(scratch / "selfloop", scratch / "selfloop", ec);            // ELOOP
+  std::filesystem::create_symlink(scratch / "loopb", scratch / "loopa", ec);                  // ELOOP through a cycle of two
+  std::filesystem::create_symlink(scratch / "loopa", scratch / "loopb", ec);
+  std::filesystem::create_directory_symlink(scratch / "dir", scratch / "symdir", ec);         // a link to a directory
+  std::filesystem::create_symlink(scratch / "symfile", scratch / "symsym", ec);               // link -> link -> file5
+  (void)::mkfifo((scratch / "fifo").c_str(), 0600);                                           // exists, not a regular file
 }
 
 void remove_scratch()
@@ -282,7 +291,14 @@ std::string handle1(std::vector<std::string> const &t)
   }
   if (op == "filesize" && t.size() == 2)
   {
-    std::filesystem::path const p = t[1] == "emptypath" ? std::filesystem::path{} : t[1] == "dot" ? std::filesystem::path{"."} : scratch / t[1];
+    std::filesystem::path const p =
+        t[1] == "emptypath" ? std::filesystem::path{}
+        : t[1] == "dot"     ? std::filesystem::path{"."}
+        : t[1] == "longname" ? scratch / std::string(300, 'n')                 // ENAMETOOLONG
+        : t[1] == "underfile" ? scratch / "file5" / "x"                         // ENOTDIR
+        : t[1] == "underloop" ? scratch / "selfloop" / "x"                      // ELOOP in a parent component
+        : t[1] == "longpath" ? scratch / std::string(5000, 'p')                 // longer than PATH_MAX
+                             : scratch / t[1];
     auto const r = fcppt::filesystem::file_size(p);
     return r.has_value() ? "some " + std::to_string(r.get_unsafe()) : std::string{"none"};
   }
